@@ -32,12 +32,17 @@ demo() { # copies demo files in, runs, removes them; returns go test status
   return $rc
 }
 mkdir -p $OUT
-if [ "${SEED_VERIFY:-0}" = 1 ]; then
+if [ "${SEED_VERIFY:-0}" != 0 ]; then
   if [ -f "$M/demo.txt" ]; then
     if demo; then echo "demo without patch: pass (ok)"; else echo "demo without patch: FAIL (bad demo)"; tail -15 $OUT.demo.log; fi
   fi
 fi
 git -C $WT apply "$M/patch.diff" || { echo "patch does not apply"; exit 2; }
+if [ "${SEED_VERIFY:-0}" = demo ] && [ -f "$M/demo.txt" ]; then
+  # demonstration only (the suite was run when the change was accepted)
+  (cd $WT/bigtable && go build ./... ) && (cd $WT/storage && go build ./...) || echo "build with patch: FAIL (mutant rejected)"
+  if demo; then echo "demo with patch: pass (bad demo)"; else echo "demo with patch: fail (ok)"; fi
+fi
 if [ "${SEED_VERIFY:-0}" = 1 ]; then
   if suite; then echo "existing suite with patch: pass (ok)"; else echo "existing suite with patch: FAIL (mutant rejected)"; grep -h "^--- FAIL\|^FAIL\|cannot\|undefined" $OUT.*.log | head; fi
   if [ -f "$M/demo.txt" ]; then
